@@ -362,6 +362,14 @@ pub fn c12_gene_generator() {
     let default_cp = 1.0f32 / ((n + 1) as f32);
     check!(matches!(g2, PushGene::Close) == (r < default_cp), "the default close probability is 1/(n+1) for n instructions");
     std::mem::forget(g2);
+    // the borrowing conversion applies the same default
+    let nc = NChoices(n);
+    let g3: PushGene = nc.to_gene_generator().sample(&mut ConstRng(w, 0));
+    check!(matches!(g3, PushGene::Close) == (r < default_cp), "the default close probability is 1/(n+1) for n instructions (borrowing conversion)");
+    std::mem::forget(g3);
+    let g4: PushGene = nc.to_gene_generator_with_close_probability(cp).sample(&mut ConstRng(w, 0));
+    check!(matches!(g4, PushGene::Close) == (r < cp), "an explicitly configured close probability is the one applied (borrowing conversion)");
+    std::mem::forget(g4);
 }
 #[cfg(kani)]
 #[kani::proof]
